@@ -25,8 +25,6 @@ func TestC14_Constructors(t *testing.T) {
 	}
 }
 
-const fpNilTxAddress = "C14/tx/nil-inner-address-normalised"
-
 func constructorsAt(t stats.TB, loc common.Location) {
 	lname := fmt.Sprint([]byte(loc))
 	// work objects
@@ -49,7 +47,9 @@ func constructorsAt(t stats.TB, loc common.Location) {
 			c.fail("C14/constructors/decode-error", "%s does not decode: %v", name, err)
 		} else {
 			nilCoinbase := len(x.PrimaryCoinbase().Bytes()) == 0
-			if y.Hash() != h0 || y.SealHash() != s0 {
+			if nilCoinbase && known(fpNilCoinbase) {
+				labels = append(labels, "nil_coinbase_hash_excluded")
+			} else if y.Hash() != h0 || y.SealHash() != s0 {
 				fp := "C14/constructors/hash"
 				if nilCoinbase {
 					fp = fpNilCoinbase
@@ -63,12 +63,15 @@ func constructorsAt(t stats.TB, loc common.Location) {
 			}
 			// the attached transaction is types.NewEmptyQuaiTx(): To and the access-list address are
 			// zero-value common.Address{} values, which encode as zero bytes and decode as 0x00..00
-			dt := &diff{}
-			diffTx(dt, "tx.", x.Tx(), y.Tx(), false)
-			b2 := encodeWo(c, y, types.BlockObject)
-			if !dt.ok() || (!bytes.Equal(b1, b2) && !nilCoinbase) {
-				c.fail(fpNilTxAddress, "%s: the attached empty transaction changes over a round trip: %s", name, dt)
-				labels = append(labels, "tx_nil_inner_address")
+			if known(fpNilTxAddress) {
+				labels = append(labels, "empty_tx_excluded")
+			} else {
+				dt := &diff{}
+				diffTx(dt, "tx.", x.Tx(), y.Tx(), false)
+				b2 := encodeWo(c, y, types.BlockObject)
+				if !dt.ok() || (!bytes.Equal(b1, b2) && !nilCoinbase) {
+					c.fail(fpNilTxAddress, "%s: the attached empty transaction changes over a round trip: %s", name, dt)
+				}
 			}
 		}
 		stats.Case("constructors", name+"@"+lname, true, labels...)
@@ -79,7 +82,9 @@ func constructorsAt(t stats.TB, loc common.Location) {
 		x := types.NewEmptyQuaiTx()
 		c.note("constructor", "NewEmptyQuaiTx")
 		h0 := x.Hash()
-		if _, y := protoRoundTx(c, x, loc); y != nil && y.Hash() != h0 {
+		if known(fpNilTxAddress) {
+			// excluded: see TestC14_Regress_KnownFindings
+		} else if _, y := protoRoundTx(c, x, loc); y != nil && y.Hash() != h0 {
 			c.fail(fpNilTxAddress, "NewEmptyQuaiTx(): hash %x becomes %x after a proto round trip", h0, y.Hash())
 		}
 		stats.Case("constructors", "NewEmptyQuaiTx@"+lname, true, "NewEmptyQuaiTx")
